@@ -625,6 +625,14 @@ class PresentationContextItemRQ(PDUItem):
             elif isinstance(syntax, AbstractSyntaxSubItem):
                 context.abstract_syntax = syntax.abstract_syntax_name
 
+        # PS3.8 9.3.2.2: one abstract syntax, one or more transfer syntaxes
+        if context.abstract_syntax is None or not context.transfer_syntax:
+            raise ValueError(
+                "A Presentation Context (A-ASSOCIATE-RQ) Item requires an "
+                "Abstract Syntax Sub-item and at least one Transfer Syntax "
+                "Sub-item"
+            )
+
         return context
 
     @property
